@@ -33,7 +33,7 @@ Proof.
   assert (E : forall k, str_eqb code (cs k) = true -> In (cs k) all_codes -> In code all_codes).
   { intros k H. apply str_eqb_eq in H. subst. auto. }
   destruct (match match v with Some x => x | None => [] end with [] => true | _ => false end).
-  { intros H. apply andb_true_iff in H as [H _]. apply andb_true_iff in H as [H _].
+  { intros H. apply andb_true_iff in H as [H _].
     apply (E "1"%string H). cbn. auto. }
   destruct (C15_spec.usage_is (d_usage d) "N").
   { intros H. apply (E "10"%string H). cbn. tauto. }
@@ -195,21 +195,18 @@ Proof.
   destruct d as [[|v [|w r]]|]; cbn [ed_value].
   - destruct (MapTree.usage_is (e_usage e) "N" || MapTree.usage_is (e_usage e) "S"); [apply Z0|].
     destruct (MapTree.usage_is (e_usage e) "R").
-    { destruct (negb (e_seq e =? 1)%Z || match pc with None => true | Some (pu, _) => MapTree.usage_is pu "R" end);
-        [apply Z1 | apply Z0]. }
+    { apply Z1. }
     apply (M []).
   - destruct v as [|a x].
     + destruct (MapTree.usage_is (e_usage e) "N" || MapTree.usage_is (e_usage e) "S"); [apply Z0|].
       destruct (MapTree.usage_is (e_usage e) "R").
-      { destruct (negb (e_seq e =? 1)%Z || match pc with None => true | Some (pu, _) => MapTree.usage_is pu "R" end);
-          [apply Z1 | apply Z0]. }
+      { apply Z1. }
       apply (M []).
     + apply (M (a :: x)).
   - apply Z1.
   - destruct (MapTree.usage_is (e_usage e) "N" || MapTree.usage_is (e_usage e) "S"); [apply Z0|].
     destruct (MapTree.usage_is (e_usage e) "R").
-    { destruct (negb (e_seq e =? 1)%Z || match pc with None => true | Some (pu, _) => MapTree.usage_is pu "R" end);
-        [apply Z1 | apply Z0]. }
+    { apply Z1. }
     discriminate.
 Qed.
 
